@@ -1,5 +1,6 @@
 import P0f.LogicOk.Prelude
 import P0f.Generated.Logic.WindowMultiplier
+import P0f.Props.C17
 namespace P0f
 /-- `TCPPacketSignature.calculate_window_multiplier` as printed from the source = the model's (C17, C01) -/
 theorem gen_windowMult (p : WIn) : Gen.windowMult p = windowMult p := by
@@ -17,4 +18,14 @@ theorem gen_windowMult (p : WIn) : Gen.windowMult p = windowMult p := by
          by_cases h1 : p.ts = 0 <;> by_cases h2 : p.ipVer = 6 <;> by_cases h3 : p.synMss = 0 <;>
            simp [h1, h2, h3, WILDCARD] <;> rfl
        · simp; omega)
+
+/-- **C17 against the source text**: the printed `calculate_window_multiplier` returns `window / d` with the MTU flag of the FIRST
+    documented divisor that divides the window, and WILDCARD when there is no base or no divisor -/
+theorem source_windowMult_first (p : WIn) (d : Int) (m : Bool) (hb : HasBase p) (h : FirstDivisor p d m) :
+    Gen.windowMult p = ((p.win : Int) / d, m) := by
+  rw [gen_windowMult]; exact (windowMult_first p d m hb h).1
+
+theorem source_windowMult_none (p : WIn) (h : ¬ HasBase p ∨ NoDivisor p) : Gen.windowMult p = (WILDCARD, false) := by
+  rw [gen_windowMult]; exact windowMult_none p h
+
 end P0f
